@@ -40,6 +40,7 @@ def Req.tops : Req → List TOp
   | .importNs ns kind raw => [.importNs ns kind raw]
   | .dropDoc ns => [.remove ns]
   | .setHash _ e => [.put e]
+  | .insertDoc _ e => [.put e]
   | .setPolicy ns p => [.policy ns p]
   | .registerPeer ns nanos peer => [.peer ns nanos peer]
   | _ => []
@@ -51,6 +52,7 @@ inductive TStepIn (ops : List TOp) (t : T) : T → Prop
 
 def Req.wf : Req → Prop
   | .setHash _ e => Wf e
+  | .insertDoc _ e => Wf e
   | .dropDoc ns => ns.length = 32
   | _ => True
 
@@ -187,6 +189,33 @@ theorem importThenOpen_t (s : NState) (ns : Bytes) (kind : Nat) (raw : Bytes) :
   · rename_i p _
     rw [withA_t]; exact h
 
+theorem writeLocal_tstep (s : NState) (ns : Bytes) (e : Entry) (ops : List TOp) (hin : TOp.put e ∈ ops) :
+    TStepIn ops s.a.t (writeLocal s ns e).1.a.t := by
+  unfold writeLocal
+  cases authorGet s.a.t e.author with
+  | none => exact TStepIn.same
+  | some _ =>
+    simp only
+    rcases step_insertLocal_t s.a ns e with h | h
+    · split
+      · rename_i a' n heq
+        rw [heq] at h
+        show TStepIn _ s.a.t (List.foldl _ a' _).t
+        rw [foldl_unsubscribe_t]; simp only at h; rw [h]; exact TStepIn.same
+      · rename_i a' r _ heq
+        rw [heq] at h
+        show TStepIn _ s.a.t a'.t
+        simp only at h; rw [h]; exact TStepIn.same
+    · split
+      · rename_i a' n heq
+        rw [heq] at h
+        show TStepIn _ s.a.t (List.foldl _ a' _).t
+        rw [foldl_unsubscribe_t]; simp only at h; rw [h]; exact TStepIn.op (.put e) hin
+      · rename_i a' r _ heq
+        rw [heq] at h
+        show TStepIn _ s.a.t a'.t
+        simp only at h; rw [h]; exact TStepIn.op (.put e) hin
+
 theorem stepRaw_tstep (s : NState) (r : Req) : TStepIn r.tops s.a.t (stepRaw s r).1.a.t := by
   cases r with
   | create ns raw =>
@@ -211,31 +240,20 @@ theorem stepRaw_tstep (s : NState) (r : Req) : TStepIn r.tops s.a.t (stepRaw s r
       rw [heq] at hl
       show TStepIn _ s.a.t s1.a.t
       rw [hl]; exact TStepIn.same
-  | setHash ns e =>
+  | setHash ns e => exact writeLocal_tstep s ns e _ (by simp [Req.tops])
+  | insertDoc ns e =>
     simp only [stepRaw]
     cases authorGet s.a.t e.author with
     | none => exact TStepIn.same
     | some _ =>
       simp only
-      rcases step_insertLocal_t s.a ns e with h | h
-      · split
-        · rename_i a' n heq
-          rw [heq] at h
-          show TStepIn _ s.a.t (List.foldl _ a' _).t
-          rw [foldl_unsubscribe_t]; simp only at h; rw [h]; exact TStepIn.same
-        · rename_i a' r _ heq
-          rw [heq] at h
-          show TStepIn _ s.a.t a'.t
-          simp only at h; rw [h]; exact TStepIn.same
-      · split
-        · rename_i a' n heq
-          rw [heq] at h
-          show TStepIn _ s.a.t (List.foldl _ a' _).t
-          rw [foldl_unsubscribe_t]; simp only at h; rw [h]; exact TStepIn.op (.put e) (by simp [Req.tops])
-        · rename_i a' r _ heq
-          rw [heq] at h
-          show TStepIn _ s.a.t a'.t
-          simp only at h; rw [h]; exact TStepIn.op (.put e) (by simp [Req.tops])
+      cases getOpen s.a ns with
+      | none => exact TStepIn.same
+      | some _ =>
+        simp only
+        split
+        · exact TStepIn.same
+        · exact writeLocal_tstep s ns e _ (by simp [Req.tops])
   | getExact ns a k i => simp only [stepRaw]; rw [withA_t, step_getExact_t]; exact TStepIn.same
   | getMany ns q => simp only [stepRaw]; cases getOpen s.a ns <;> exact TStepIn.same
   | setPolicy ns p =>
@@ -723,6 +741,21 @@ theorem foldl_unsubscribe_openInv (l : List (Nat × Bytes × Bool)) (a : AState)
   | nil => exact inv
   | cons x xs ih => simp only [List.foldl_cons]; exact ih _ (Actor.step_openInv a (.unsubscribe ns) inv)
 
+theorem writeLocal_openInv (s : NState) (ns : Bytes) (e : Entry) (inv : OpenInv s.a) : OpenInv (writeLocal s ns e).1.a := by
+  unfold writeLocal
+  cases authorGet s.a.t e.author with
+  | none => exact inv
+  | some _ =>
+    simp only
+    have h := Actor.step_openInv s.a (.insertLocal ns e) inv
+    split
+    · rename_i a' n heq
+      rw [heq] at h
+      exact foldl_unsubscribe_openInv _ a' ns h
+    · rename_i a' r _ heq
+      rw [heq] at h
+      exact h
+
 theorem stepRaw_openInv (s : NState) (r : Req) (inv : OpenInv s.a) : OpenInv (stepRaw s r).1.a := by
   cases r with
   | create ns raw => exact importThenOpen_openInv s ns 1 raw inv
@@ -740,20 +773,20 @@ theorem stepRaw_openInv (s : NState) (r : Req) (inv : OpenInv s.a) : OpenInv (st
     · rename_i s1 r1 _ heq
       rw [heq] at hl
       exact hl
-  | setHash ns e =>
+  | setHash ns e => exact writeLocal_openInv s ns e inv
+  | insertDoc ns e =>
     simp only [stepRaw]
     cases authorGet s.a.t e.author with
     | none => exact inv
     | some _ =>
       simp only
-      have h := Actor.step_openInv s.a (.insertLocal ns e) inv
-      split
-      · rename_i a' n heq
-        rw [heq] at h
-        exact foldl_unsubscribe_openInv _ a' ns h
-      · rename_i a' r _ heq
-        rw [heq] at h
-        exact h
+      cases getOpen s.a ns with
+      | none => exact inv
+      | some _ =>
+        simp only
+        split
+        · exact inv
+        · exact writeLocal_openInv s ns e inv
   | getExact ns a k i => exact Actor.step_openInv s.a _ inv
   | getMany ns q => simp only [stepRaw]; cases getOpen s.a ns <;> exact inv
   | setPolicy ns p =>
@@ -940,7 +973,7 @@ theorem write_events_exact (s : NState) (ns : Bytes) (e : Entry) :
     | .wrote _ subs => subs = []
     | .errAuthorNotFound => True
     | _ => False := by
-  simp only [step, stepRaw]
+  simp only [step, stepRaw, writeLocal]
   cases authorGet s.a.t e.author with
   | none => trivial
   | some _ =>
@@ -985,6 +1018,18 @@ theorem leaveL_apiSubs (s : NState) (ns : Bytes) : (leaveL s ns).1.apiSubs = s.a
     · rfl
   · rfl
 
+theorem writeLocal_keeps_sub (s : NState) (ns' : Bytes) (e : Entry) (id : Nat) (ns : Bytes)
+    (h : (id, ns, false) ∈ s.apiSubs) : (id, ns, false) ∈ (writeLocal s ns' e).1.apiSubs := by
+  unfold writeLocal
+  cases authorGet s.a.t e.author with
+  | none => exact h
+  | some _ =>
+    simp only
+    split
+    · show (id, ns, false) ∈ s.apiSubs.filter _
+      exact List.mem_filter.mpr ⟨h, by simp⟩
+    · exact h
+
 /-- a live subscription stays in the node's books over every request but `drop_doc` of its document … -/
 theorem stepRaw_keeps_sub (s : NState) (r : Req) (id : Nat) (ns : Bytes) (hr : r ≠ .dropDoc ns)
     (h : (id, ns, false) ∈ s.apiSubs) : (id, ns, false) ∈ (stepRaw s r).1.apiSubs := by
@@ -1010,16 +1055,20 @@ theorem stepRaw_keeps_sub (s : NState) (r : Req) (id : Nat) (ns : Bytes) (hr : r
     · rename_i s1 r1 _ heq
       rw [heq] at hl
       exact hl ▸ h
-  | setHash ns' e =>
+  | setHash ns' e => exact writeLocal_keeps_sub s ns' e id ns h
+  | insertDoc ns' e =>
     simp only [stepRaw]
     cases authorGet s.a.t e.author with
     | none => exact h
     | some _ =>
       simp only
-      split
-      · show (id, ns, false) ∈ s.apiSubs.filter _
-        exact List.mem_filter.mpr ⟨h, by simp⟩
-      · exact h
+      cases getOpen s.a ns' with
+      | none => exact h
+      | some _ =>
+        simp only
+        split
+        · exact h
+        · exact writeLocal_keeps_sub s ns' e id ns h
   | getExact ns' a k i => exact h
   | getMany ns' q => simp only [stepRaw]; cases getOpen s.a ns' <;> exact h
   | setPolicy ns' p => simp only [stepRaw]; cases Tables.setDownloadPolicy s.a.t ns' p <;> exact h
@@ -1059,6 +1108,20 @@ theorem sub_survives (s : NState) (r : Req) (id : Nat) (ns : Bytes) (hr : r ≠ 
   simp only [step, prune] at hopen ⊢
   exact List.mem_filter.mpr ⟨stepRaw_keeps_sub s r id ns hr h, hopen⟩
 
+/-- **A local write with a zero length or the empty hash is refused and changes nothing** — whatever
+the node's state; what the other replicas would refuse (C03) is never authored here (C04). -/
+theorem insertDoc_empty_refused (s : NState) (ns : Bytes) (e : Entry) (h : Replica.insertGuard e = true) :
+    (step s (.insertDoc ns e)).1.a.t = s.a.t ∧
+    (step s (.insertDoc ns e)).2 ∈ [Reply.errAuthorNotFound, .wrote .errNotOpen [], .errEntryIsEmpty] := by
+  simp only [step, stepRaw]
+  cases authorGet s.a.t e.author with
+  | none => exact ⟨rfl, by simp⟩
+  | some _ =>
+    simp only
+    cases getOpen s.a ns with
+    | none => exact ⟨rfl, by simp⟩
+    | some _ => simp only [h, if_true]; exact ⟨rfl, by simp⟩
+
 /-! ## non-vacuity: a concrete history -/
 
 section Example
@@ -1071,7 +1134,7 @@ private def eX : Entry := { ns := nsX, author := auX, key := [1], ts := 5, len :
 /-- create, subscribe, write: the write is applied and announced to the one subscription; then the
 policy is set and read back, a peer registered and listed, the document dropped and gone -/
 example :
-    (run (init auX [0]) [.create nsX [1], .subscribe nsX, .setHash nsX eX, .setPolicy nsX (.nothingExcept []),
+    (run (init auX [0]) [.create nsX [1], .subscribe nsX, .insertDoc nsX eX, .setPolicy nsX (.nothingExcept []),
         .getPolicy nsX, .registerPeer nsX 10 [8], .getSyncPeers nsX, .getMany nsX { includeEmpty := true },
         .closeDoc nsX, .dropDoc nsX, .listDocs, .contentHashes]).2
       = [.act .ok, .subscribed 0, .wrote (.inserted 0) [0], .act .ok, .policy (.nothingExcept []), .act .ok,
